@@ -7,6 +7,7 @@ import random
 import time
 
 from . import core, family, famcheck, selftest
+from . import pestenv as pestenv_mod
 
 STACK_FEATS = {"push", "pushlit", "peek", "peekslice", "peekall", "pop", "popall", "drop"}
 
@@ -149,9 +150,176 @@ def preflight(prop: str):
     return {}
 
 
+# ---------------------------------------------------------------------------
+# canaries: in-memory mutants of the library that the check must detect (never touch /repo)
+
+
+def _c_range_ci(cp):
+    T = cp.modules["pest.grammar.expressions.terminals"]
+    rx = cp.modules["pest.grammar.expressions.terminals"].re
+
+    def parse(self, state, pairs):
+        m = rx.compile(self._pattern(), rx.I).match(state.input, state.pos)
+        if m:
+            state.pos = m.end()
+            return True
+        state.fail(str(self))
+        return False
+
+    T.Range.parse = parse
+
+
+def _c_unroll_max(cp):
+    U = cp.modules["pest.grammar.optimizers.unroller"]
+    O = cp.modules["pest.grammar.optimizer"]
+    g = cp.modules["pest.grammar"]
+    orig = U.unroll
+
+    def unroll(expr, rules):
+        if type(expr).__name__ == "RepeatMax":
+            return g.Sequence(*[g.Optional(expr.expression)] * (expr.number + 1))
+        return orig(expr, rules)
+
+    for st in O.DEFAULT_OPTIMIZER_PASSES:
+        if st.name == "unroll":
+            st.func = unroll
+
+
+def _c_choice_no_restore(cp):
+    Ch = cp.modules["pest.grammar.expressions.choice"].Choice
+
+    def parse(self, state, pairs):
+        for expr in self.expressions:
+            state.checkpoint()
+            children = []
+            if expr.parse(state, children):
+                state.ok()
+                pairs.extend(children)
+                return True
+            pos = state.pos
+            state.restore()
+            state.pos = pos
+        return False
+
+    Ch.parse = parse
+
+
+def _c_repeat_trailing_trivia(cp):
+    R = cp.modules["pest.grammar.expressions.postfix"].Repeat
+
+    def parse(self, state, pairs):
+        children = []
+        while True:
+            state.checkpoint()
+            if not self.expression.parse(state, children):
+                state.restore()
+                break
+            state.ok()
+            pairs.extend(children)
+            children.clear()
+            state.parse_trivia(children)
+        return True
+
+    R.parse = parse
+
+
+def _c_restore_keeps_stack(cp):
+    PS = cp.pest.ParserState
+
+    def restore(self):
+        self.user_stack.drop_snapshot()  # stack changes of the abandoned attempt survive
+        self.rule_stack.restore()
+        self.atomic_depth.restore()
+        self.pos = self._pos_history.pop()
+
+    PS.restore = restore
+
+
+def _c_silent_leaks_children(cp):
+    R = cp.modules["pest.grammar.rule"].Rule
+    orig = R.parse
+
+    def parse(self, state, pairs):
+        n = len(pairs)
+        ok = orig(self, state, pairs)
+        if ok and pairs[n:] and self.modifier == 0 and pairs[-1].children:
+            pairs[-1].children.append(pairs[-1].children[0])  # duplicated child: overlapping siblings
+        return ok
+
+    R.parse = parse
+
+
+def _c_drop_raises(cp):
+    D = cp.modules["pest.grammar.expressions.terminals"].Drop
+
+    def parse(self, state, pairs):
+        state.user_stack.pop()
+        return True
+
+    D.parse = parse
+
+
+def _c_fail_pos(cp):
+    PS = cp.pest.ParserState
+    orig = PS.fail
+
+    def fail(self, label, *, pos=None, rule_name=None, force=False):
+        orig(self, label, pos=(pos or self.pos) + len(self.input) + 1, rule_name=rule_name, force=force)
+
+    PS.fail = fail
+
+
+def _c_clamp_start(cp):
+    PS = cp.pest.ParserState
+    orig = PS.__init__
+
+    def init(self, text, start_pos=0, parser=None):
+        orig(self, text, max(0, min(start_pos, len(text) - 1)), parser)
+
+    PS.__init__ = init
+
+
+CANARIES = {
+    "C01": [("interpreter-range-ignores-case", _c_range_ci, "/range/")],
+    "C02": [("unroll-{,n}-one-too-many", _c_unroll_max, "/repmax/")],
+    "C03": [("choice-leaks-position", _c_choice_no_restore, "/choice3/")],
+    "C04": [("repeat-keeps-trailing-trivia", _c_repeat_trailing_trivia, "/star/")],
+    "C05": [("restore-keeps-stack-changes", _c_restore_keeps_stack, "stk/alt.plain/")],
+    "C06": [("duplicated-child-pair", _c_silent_leaks_children, "/ref2/")],
+    "C07": [("drop-raises-on-empty-stack", _c_drop_raises, "/drop/")],
+    "C13": [("failure-position-out-of-range", _c_fail_pos, "/lit2/")],
+    "C16": [("start-position-clamped", _c_clamp_start, "/lit1/")],
+}
+
+
+def run_canaries(prop: str, tier: str, seed: int, known) -> list[str]:
+    """Each canary mutant must make the check report at least one failing path."""
+    missed = []
+    for name, hook, only in CANARIES.get(prop, []):
+        tasks = [t for t in plan(prop, "quick", seed, core.Known.__new__(core.Known) if False else known, only)][:24]
+        for t in tasks:
+            t["fn"] = "family"
+            t["regions"] = {}
+        pestenv_mod.COPY_HOOKS[:] = [hook]
+        famcheck._COPY_A = None
+        try:
+            res = core.run_units(None, tasks, init=_init, progress=False, procs=min(8, max(2, len(tasks))))
+        finally:
+            pestenv_mod.COPY_HOOKS[:] = []
+            famcheck._COPY_A = None
+        if not any(r["failures"] for r in res):
+            missed.append(f"{name} (units {only}: {len(tasks)}, harness errors: {sum(len(r['harness_errors']) for r in res)})")
+    return missed
+
+
 def main(prop: str, tier: str, seed: int, only: str | None = None, record: str | None = None) -> int:
     t0 = time.time()
     known = core.Known()
+    if not only:
+        missed = run_canaries(prop, tier, seed, known)
+        if missed:
+            print("HARNESS-ERROR: canary mutant(s) not detected:", missed)
+            return core.EXIT_HARNESS
     try:
         extra = preflight(prop)
     except core.HarnessError as e:
@@ -183,7 +351,7 @@ def main(prop: str, tier: str, seed: int, only: str | None = None, record: str |
             "a solver-feasible input class on which the property's assertion was evaluated"
         ),
         assumptions=ASSUME_COMMON,
-        extra_cov=extra,
+        extra_cov=dict(extra, canaries_detected=[c[0] for c in CANARIES.get(prop, [])] if not only else []),
         functions=FUNCTIONS,
         bounds={"max_len": nmax, "family": "F1" + ("+F2(seed)" if tier == "thorough" else ""), "modes": sorted({m for t in tasks if "modes" in t for m in t["modes"]})[:12]},
         known=known,
